@@ -46,6 +46,10 @@ func NewNode(t thrift.Type, src []byte) Node {
 		l: (len(src)),
 		v: rt.GetBytePtr(src),
 	}
+	if len(src) == 0 {
+		// no data at all: do not keep a pointer to (or one past the end of) somebody else's memory
+		ret.v = nil
+	}
 	// the element / key type bytes are only read if src really holds them
 	if (t == thrift.LIST || t == thrift.SET) && len(src) >= 1 {
 		ret.et = *(*thrift.Type)(unsafe.Pointer(ret.v))
